@@ -11,6 +11,7 @@ import (
 	"sync/atomic"
 	"time"
 
+	"github.com/google/uuid"
 	"go.dedis.ch/kyber/v3/util/key"
 	"go.dedis.ch/onet/v3"
 	"go.dedis.ch/onet/v3/log"
@@ -30,6 +31,8 @@ import (
 //                                 Router.Send; n > 1 only for entry "router"); entries: router, raw
 //                                 (Context.SendRaw), sendto, parent, children, parallel, multicast,
 //                                 broadcast
+//   par <entry> <deads> <healthy> one send per dead peer (all at once, through that entry point) and,
+//                                 100 ms later, a router send to a healthy peer S has no connection with
 //   down <p>                      the victim stops; waits until S's receive loops reported it
 //   freeze <p>                    class silent-tcp: the victim goes silent without closing anything (its
 //                                 address stops answering, S's connection stays open); the connection
@@ -39,7 +42,10 @@ import (
 //   up <p>                        the victim listens again (same identity, same address)
 //   conns <p>                     number of connections with p in S's connection table
 //
-// not modelled (class "cut", compared with nothing, oracle only):
+// not modelled (classes "cut" and "orphan", compared with nothing, oracle only):
+//   orphan <x> <k>                S handles the first message of a run over a tree it does not know, sent
+//                                 by peer x which is dead by now, while k canary messages of another run
+//                                 (S2 -> S) arrive
 //   cut <p> <k>                   the next connection towards victim p is cut after k bytes
 //   settle
 
@@ -518,7 +524,7 @@ func (w *c09world) send(entry string, dests []int, n int) string {
 		}
 	}
 	s2before := w.canaryCount()
-	w.seq++
+	atomic.AddInt64(&w.seq, 1)
 	msg := func() interface{} { return &C09Msg{V: w.seq} }
 	errs := 0
 	t0 := time.Now()
@@ -683,6 +689,191 @@ func c09port(n int) int {
 	return 10000 + (os.Getpid()%1200)*16 + n
 }
 
+// sendOne performs one single-destination entry point towards peer d and tells whether it
+// reported an error.
+func (w *c09world) sendOne(entry string, d int) (bool, error) {
+	switch entry {
+	case "router":
+		_, err := w.s.Send(w.sid(d), &C09Msg{V: atomic.AddInt64(&w.seq, 1)})
+		return err != nil, nil
+	case "raw":
+		return w.svc.ctx.SendRaw(w.sid(d), &C09Msg{V: atomic.AddInt64(&w.seq, 1)}) != nil, nil
+	case "sendto":
+		tni, nodes, err := w.tni("sendto", []int{d})
+		if err != nil {
+			return false, err
+		}
+		return tni.SendTo(nodes[0], &fix.M3{V: 1}) != nil, nil
+	}
+	return false, fmt.Errorf("no such single-destination entry %q", entry)
+}
+
+// par: sends towards dead peers are in progress (each keeps dialling for a while) when a send
+// to a healthy peer, with which S has no connection yet, is made. The failures must not hold the
+// healthy send back: it has to be through before the first of the doomed sends gives up.
+func (w *c09world) par(entry string, deads []int, healthy int) string {
+	if healthy <= 0 || len(deads) == 0 {
+		return "bad-op"
+	}
+	hv := w.victim(healthy)
+	before := atomic.LoadInt64(&hv.got)
+	var finished, errs int32
+	var wg sync.WaitGroup
+	// trees and instances are prepared first: the overlay's bookkeeping is not what is measured
+	type job struct{ run func() bool }
+	var jobs []job
+	for _, d := range deads {
+		d := d
+		if entry == "sendto" {
+			tni, nodes, err := w.tni("sendto", []int{d})
+			if err != nil {
+				w.cs.Fail("harness", err.Error())
+				return "harness-error"
+			}
+			jobs = append(jobs, job{func() bool { return tni.SendTo(nodes[0], &fix.M3{V: 1}) != nil }})
+		} else {
+			jobs = append(jobs, job{func() bool { e, _ := w.sendOne(entry, d); return e }})
+		}
+	}
+	t0 := time.Now()
+	for _, j := range jobs {
+		j := j
+		wg.Add(1)
+		go func() {
+			defer wg.Done()
+			if j.run() {
+				atomic.AddInt32(&errs, 1)
+			}
+			atomic.AddInt32(&finished, 1)
+		}()
+	}
+	time.Sleep(100 * time.Millisecond)
+	_, herr := w.s.Send(w.sid(healthy), &C09Msg{V: atomic.AddInt64(&w.seq, 1)})
+	hlat := time.Since(t0) - 100*time.Millisecond
+	doneBefore := atomic.LoadInt32(&finished)
+	deadline := time.After(3 * time.Second)
+	delivered := int64(0)
+	for delivered < 1 {
+		delivered = atomic.LoadInt64(&hv.got) - before
+		select {
+		case <-deadline:
+			delivered = atomic.LoadInt64(&hv.got) - before
+			goto out
+		case <-time.After(500 * time.Microsecond):
+		}
+	}
+out:
+	wg.Wait()
+	total := time.Since(t0)
+	hres := "ok"
+	if herr != nil {
+		hres = "err:1"
+	}
+	if w.isUp(healthy) && delivered > 0 {
+		hv.connected = true
+	}
+	nDead := 0
+	for _, d := range deads {
+		if !w.isUp(d) {
+			nDead++
+		}
+	}
+	if int(errs) < nDead {
+		w.cs.Fail("error-not-reported", fmt.Sprintf("%d concurrent %s sends towards dead peers %v: %d errors reported", len(deads), entry, deads, errs))
+	}
+	if herr != nil || delivered < 1 {
+		w.cs.Fail("not-delivered", fmt.Sprintf("the send to healthy peer %d made while sends to dead peers %v were in progress: error %v, delivered %d", healthy, deads, herr, delivered))
+	} else if !w.tcp && doneBefore > 0 && total > 300*time.Millisecond {
+		// on the in-memory transport a doomed connect keeps trying for about half a second; the
+		// healthy send started 100 ms after them and needs no more than a dial
+		w.cs.Fail("healthy-send-held-back", fmt.Sprintf("the send to healthy peer %d returned after %v, when %d of the %d sends to dead peers %v had already given up (they take %v): it waited for them", healthy, hlat, doneBefore, len(deads), deads, total))
+	}
+	w.tag(fmt.Sprintf("par:%s:dead=%d:held=%v", entry, c03bucketN(nDead), doneBefore > 0))
+	w.tag("par-healthy-latency" + c09latency(hlat))
+	return fmt.Sprintf("err:%d|%s delivered=%d", errs, hres, delivered)
+}
+
+// orphan: see the operation list. Not compared with the model.
+func (w *c09world) orphan(x, k int) string {
+	ov := w.lt.Overlays[w.s.ServerIdentity.ID]
+	ov2 := w.lt.Overlays[w.s2.ServerIdentity.ID]
+	// the canary run: S2 is the root, S its child; both know the tree; one message warms it up
+	ro := onet.NewRoster([]*network.ServerIdentity{w.s2.ServerIdentity, w.s.ServerIdentity})
+	t, nodes := fix.BuildTree(ro, []int{-1, 0}, []int{0, 1})
+	ov.RegisterTree(t)
+	pi, err := ov2.CreateProtocol(fix.ProtoName, t, onet.NilServiceID)
+	if err != nil {
+		w.cs.Fail("harness", err.Error())
+		return "harness-error"
+	}
+	rootTok := pi.(interface{ Token() *onet.Token }).Token()
+	root := fix.RecOf(rootTok)
+	if root == nil {
+		w.cs.Fail("harness", "no recorder for the canary root")
+		return "harness-error"
+	}
+	w.tnis = append(w.tnis, root.Tni)
+	childTok := rootTok.ChangeTreeNodeID(nodes[1].ID)
+	w.s2toks = append(w.s2toks, childTok)
+	c0 := atomic.LoadInt64(&c09canary)
+	if err := root.Tni.SendTo(nodes[1], &fix.M3{V: 0}); err != nil {
+		w.cs.Fail("harness", "canary warm-up: "+err.Error())
+		return "harness-error"
+	}
+	for i := 0; i < 3000 && atomic.LoadInt64(&c09canary) == c0; i++ {
+		time.Sleep(time.Millisecond)
+	}
+	if atomic.LoadInt64(&c09canary) == c0 {
+		w.cs.Fail("not-delivered", "the canary warm-up message was not handled within 3 s")
+		return "no-canary"
+	}
+	// the orphan: first message of a run over a tree only x knows; x is dead and S has no
+	// connection with it, so S's tree request has to dial
+	xo := onet.NewRoster([]*network.ServerIdentity{w.sid(x), w.s.ServerIdentity})
+	xt, xn := fix.BuildTree(xo, []int{-1, 0}, []int{0, 1})
+	round := uuid.New()
+	env, err := fix.Envelope(w.sid(x), fix.TokenFor(xt, xn[0], round), fix.TokenFor(xt, xn[1], round), &fix.M3{V: 7})
+	if err != nil {
+		w.cs.Fail("harness", err.Error())
+		return "harness-error"
+	}
+	c1 := atomic.LoadInt64(&c09canary)
+	t0 := time.Now()
+	var procDone int64
+	go func() {
+		ov.Process(env)
+		atomic.StoreInt64(&procDone, int64(time.Since(t0)))
+	}()
+	time.Sleep(100 * time.Millisecond)
+	for i := 0; i < k; i++ {
+		root.Tni.SendTo(nodes[1], &fix.M3{V: i + 1})
+	}
+	var canaryDone time.Duration
+	for i := 0; i < 5000; i++ {
+		if atomic.LoadInt64(&c09canary)-c1 >= int64(k) {
+			canaryDone = time.Since(t0)
+			break
+		}
+		time.Sleep(time.Millisecond)
+	}
+	for i := 0; i < 10000 && atomic.LoadInt64(&procDone) == 0; i++ {
+		time.Sleep(time.Millisecond)
+	}
+	pd := time.Duration(atomic.LoadInt64(&procDone))
+	got := atomic.LoadInt64(&c09canary) - c1
+	switch {
+	case pd == 0:
+		w.cs.Fail("hang", "handling the orphan message of dead peer did not return within 10 s")
+	case got < int64(k):
+		w.cs.Fail("not-delivered", fmt.Sprintf("%d of %d canary messages handled within 5 s", got, k))
+	case pd > 300*time.Millisecond && canaryDone >= pd:
+		w.cs.Fail("canary-held-back", fmt.Sprintf("S spent %v trying to reach dead peer %d for a tree; the %d canary messages of another run, sent 100 ms after that began, were only handled after %v", pd, x, k, canaryDone))
+	}
+	w.tag(fmt.Sprintf("orphan:held=%v", pd > 300*time.Millisecond && canaryDone >= pd))
+	w.tag("orphan-canary-latency" + c09latency(canaryDone-100*time.Millisecond))
+	return fmt.Sprintf("handled canaries=%d", got)
+}
+
 func c09latency(d time.Duration) string {
 	switch {
 	case d < 50*time.Millisecond:
@@ -791,14 +982,14 @@ func c09exec(c *h.Ctx, cs *h.Case) {
 	log.OutputToBuf()
 	w := &c09world{cs: cs, c: c, victims: map[int]*c09victim{}, tags: map[string]bool{}}
 	defer w.close()
-	cs.NoModel = strings.HasPrefix(cs.Class, "cut")
+	cs.NoModel = strings.HasPrefix(cs.Class, "cut") || strings.HasPrefix(cs.Class, "orphan")
 	for _, op := range cs.Ops {
 		tk := strings.Fields(op)
 		obs := "bad-op"
 		switch {
 		case len(tk) == 4 && tk[1] == "open" && (tk[2] == "tcp" || tk[2] == "local") && w.s == nil:
 			if ups, ok := c03ints(tk[3]); ok {
-				w.useProxy = cs.NoModel
+				w.useProxy = strings.HasPrefix(cs.Class, "cut")
 				w.silentClass = strings.HasPrefix(cs.Class, "silent") && tk[2] == "tcp"
 				if w.silentClass {
 					w.oldTimeout = network.VerifSetReadTimeout(1500 * time.Millisecond)
@@ -830,6 +1021,18 @@ func c09exec(c *h.Ctx, cs *h.Case) {
 			n, err := strconv.Atoi(tk[4])
 			if ok && err == nil {
 				obs = w.send(tk[2], dests, n)
+			}
+		case len(tk) == 5 && tk[1] == "par":
+			deads, ok := c03ints(tk[3])
+			hp, err := strconv.Atoi(tk[4])
+			if ok && err == nil && (tk[2] == "router" || tk[2] == "raw" || tk[2] == "sendto") {
+				obs = w.par(tk[2], deads, hp)
+			}
+		case len(tk) == 4 && tk[1] == "orphan":
+			x, err1 := strconv.Atoi(tk[2])
+			k, err2 := strconv.Atoi(tk[3])
+			if err1 == nil && err2 == nil && x > 0 && k > 0 {
+				obs = w.orphan(x, k)
 			}
 		case len(tk) == 3 && tk[1] == "down":
 			if p, err := strconv.Atoi(tk[2]); err == nil && p > 0 {
@@ -1024,6 +1227,41 @@ func c09gen(c *h.Ctx, yield func(*h.Case)) {
 			}
 		}
 		emit("faults-"+tr, ops...)
+	}
+	// failures in progress must not hold healthy traffic back: concurrent sends towards dead peers
+	// (whose entries are gone from the table, so they dial) and a first contact with a healthy peer
+	for i := 0; i < c.Pick(16, 160); i++ {
+		tr := "local"
+		if r.Intn(4) == 0 {
+			tr = "tcp" // results only; the doomed dials are too short on loopback to order anything
+		}
+		nd := 1 + r.Intn(3)
+		ups := []int{0, nd + 1}
+		var deads []int
+		for d := 1; d <= nd; d++ {
+			deads = append(deads, d)
+		}
+		ops := []string{fmt.Sprintf("c09 open %s %s", tr, h.Ints(ups))}
+		if r.Intn(2) == 0 {
+			// the dead ones were alive and used once: their entries were reported and removed
+			ops[0] = fmt.Sprintf("c09 open %s %s", tr, h.Ints(append([]int{0}, append(append([]int{}, deads...), nd+1)...)))
+			ops = append(ops, "c09 handler 10")
+			for _, d := range deads {
+				ops = append(ops, fmt.Sprintf("c09 send router %d 1", d))
+			}
+			for _, d := range deads {
+				ops = append(ops, fmt.Sprintf("c09 down %d", d))
+			}
+		}
+		e := []string{"router", "raw", "sendto"}[r.Intn(3)]
+		ops = append(ops, fmt.Sprintf("c09 par %s %s %d", e, h.Ints(deads), nd+1), fmt.Sprintf("c09 conns %d", nd+1),
+			fmt.Sprintf("c09 send router %d 1", nd+1))
+		emit("concurrent-"+tr, ops...)
+	}
+	// the same at the overlay: a tree request towards a dead peer must not stall the handling of
+	// other runs' messages
+	for i := 0; i < c.Pick(8, 80); i++ {
+		emit("orphan-local", "c09 open local 0", fmt.Sprintf("c09 orphan %d %d", 1+r.Intn(3), 1+r.Intn(4)), "c09 send sendto 0 1")
 	}
 	// a peer that goes silent without closing (power loss, partition): only the read time-out of
 	// the survivor's connection reveals it; then handlers, clean table, errors, recovery
